@@ -26,8 +26,9 @@ type XRow struct {
 
 // XSI is one <si> of the shared string table; Rich renders it as two runs.
 type XSI struct {
-	Text string
-	Rich bool
+	Text  string
+	Rich  bool
+	Empty bool // an empty item <si/> (CT_Rst has no required child)
 }
 
 // XSheet is one worksheet part and how the workbook refers to it.
@@ -51,6 +52,9 @@ type XWorkbook struct {
 	SST        []XSI
 	Extras     bool // styles, theme, docProps present
 	InfraFirst bool
+	// RelsInfraFirst: /_rels/.rels lists the officeDocument relationship last and
+	// workbook.xml.rels lists sharedStrings / styles / theme before the worksheets
+	RelsInfraFirst bool
 }
 
 const (
@@ -79,7 +83,7 @@ func runsXML(s string) string {
 func cellXML(c XCell) string {
 	r := ` r="` + esc(c.Ref) + `"`
 	switch c.Kind {
-	case "s", "sr":
+	case "s", "sr", "se":
 		return fmt.Sprintf(`<c%s t="s"><v>%d</v></c>`, r, c.SI)
 	case "is":
 		return `<c` + r + ` t="inlineStr"><is><t>` + esc(c.Text) + `</t></is></c>`
@@ -135,7 +139,9 @@ func sstXML(sst []XSI) string {
 	b.WriteString(xmlDecl)
 	fmt.Fprintf(&b, `<sst xmlns="%s" count="%d" uniqueCount="%d">`, nsMain, len(sst), len(sst))
 	for _, si := range sst {
-		if si.Rich {
+		if si.Empty {
+			b.WriteString(`<si/>`)
+		} else if si.Rich {
 			b.WriteString(`<si>` + runsXML(si.Text) + `</si>`)
 		} else {
 			b.WriteString(`<si><t>` + esc(si.Text) + `</t></si>`)
@@ -188,6 +194,16 @@ func (w *XWorkbook) Members() []Member {
 		root = append(root, Rel{"rId2", relCoreProps, "docProps/core.xml"}, Rel{"rId3", relExtProps, "docProps/app.xml"})
 		tail = append(tail, mem("xl/styles.xml", stylesXML), mem("xl/theme/theme1.xml", themeXML),
 			mem("docProps/core.xml", corePropsXML("workbook")), mem("docProps/app.xml", appPropsXML("verif")))
+	}
+	if w.RelsInfraFirst {
+		n := 0
+		for _, sh := range w.Sheets {
+			if sh.RelPos > 0 {
+				n++
+			}
+		}
+		rels = append(append([]Rel{}, rels[n:]...), rels[:n]...)
+		root = append(append([]Rel{}, root[1:]...), root[0])
 	}
 	infra := []Member{
 		mem("[Content_Types].xml", contentTypesXML(ov)),
